@@ -710,6 +710,9 @@ class Driver:
                 if reuse is not None and pk == "folder" and self.doc.container.path is not None \
                         and str(self.doc.container.path) == str(self.saved[reuse][0]):
                     reuse = None      # in-place folder save: outcome depends on the clock (one-second time stamps)
+                if reuse is not None and self.twin is not None and self.twin.container.path is not None \
+                        and str(self.twin.container.path) == str(self.saved[reuse][0]):
+                    reuse = None      # saving one twin over the file the other one loads from: excluded by the hypothesis of C10's independence theorems
                 if reuse is not None and pk == "xml" and isinstance(self.saved[reuse][0], io.BytesIO):
                     reuse = None      # flat XML is written at the buffer's current position: a reused BytesIO holds two documents (notes/C03.md)
                 if reuse is not None:
